@@ -263,7 +263,7 @@ def synth_header_context(repo: Repo, rep, P: str, rule: str):
 def _writer_nf(repo: Repo, ci, name: str) -> ast.FunctionDef:
     """A container's writer in normal form, with the module's helper generators (`self.module._controller_chunks()`) read through."""
     mod_k = repo.cls("Module", module="rv.modules.module")
-    return inline.normalize(repo, ci, repo.own_method(ci, name), receivers={"module": mod_k, "self.module": mod_k})
+    return inline.normalize(repo, ci, repo.own_method(ci, name, raw=True), aliases=True, receivers={"module": mod_k, "self.module": mod_k})
 
 
 def _resolve(e: ast.expr, defs: Dict[str, ast.expr], depth: int = 5) -> ast.expr:
